@@ -27,6 +27,12 @@ class Cfg:
         self.max_parts = 4
         self.ns_forms = False     # handled by C12's own generator
         self.safe_ci = True       # i-flag / type values restricted to ASCII + uncased
+        self.p_struct = 0.25
+        self.p_nth = 0.25
+        self.p_logical = 0.3
+        self.p_attr = 0.35
+        self.miss = 1.0           # scale of near-miss probabilities
+        self.p_extend = 0.55
         self.__dict__.update(kw)
 
 
@@ -52,6 +58,8 @@ class Gen:
     # -- pieces
     def near_name(self, name):
         r = self.i(0, 9)
+        if r <= 2 and not self.p(self.cfg.miss):
+            return name
         if r == 0:
             return self.pick(self.cfg.names)
         if r == 1 or (self.cfg.case_vary and r <= 4):
@@ -91,7 +99,7 @@ class Gen:
             a = self.i(0, len(v))
             b = self.i(a, len(v))
             val = v[a:b]
-        if self.p(0.25):
+        if self.p(0.25 * self.cfg.miss):
             val = self.perturb(val)
         flag = None
         if op and self.cfg.flags:
@@ -147,32 +155,32 @@ class Gen:
             c['tag'] = {'ns': None, 'name': '*'}
         ident = R.el_id(self.ctx, el)
         if ident and self.p(0.4):
-            c['ids'].append(self.perturb(ident) or ident if self.p(0.15) else ident)
+            c['ids'].append(self.perturb(ident) or ident if self.p(0.15 * cfg.miss) else ident)
         classes = [k for k in R.el_classes(self.ctx, el) if k]
         if classes and self.p(0.4):
             k = self.pick(classes)
-            c['classes'].append((self.perturb(k) or k) if self.p(0.15) else k)
+            c['classes'].append((self.perturb(k) or k) if self.p(0.15 * cfg.miss) else k)
         for k, v in list(el.attrs.items()):
             if R.ascii_lower(str(k)) in ('id', 'class') and self.p(0.7):
                 continue
-            if self.p(0.35):
+            if self.p(cfg.p_attr):
                 a = self.attr_for(el, k, v)
                 if a:
                     c['attrs'].append(a)
-        if self.p(0.08):
+        if self.p(0.08 * cfg.miss):
             c['attrs'].append({'ns': None, 'name': self.pick(('title', 'nope', 'data-x')), 'op': None, 'val': '',
                                'flag': None})
         if bare:
             return c
-        if self.p(0.25):
+        if self.p(cfg.p_struct):
             s = self.structural(el)
             if s:
                 c['ps'].append(s)
-        if cfg.nth and self.p(0.25):
+        if cfg.nth and self.p(cfg.p_nth):
             c['ps'].append(self.nth_for(el))
         if cfg.scope and self.p(0.1):
             c['ps'].append({'p': self.pick(('scope', 'amp'))})
-        if depth > 0 and cfg.logical and self.p(0.3):
+        if depth > 0 and cfg.logical and self.p(cfg.p_logical):
             c['ps'].append(self.logical(el, depth - 1))
         return c
 
@@ -207,7 +215,7 @@ class Gen:
         max_parts = max_parts or self.cfg.max_parts
         parts = [{'comb': None, 'c': self.describe(el, depth)}]
         cur = el
-        while len(parts) < max_parts and self.p(0.55):
+        while len(parts) < max_parts and self.p(self.cfg.p_extend):
             comb = self.pick((' ', '>', '+', '~'))
             cands = R.back_candidates(cur, comb)
             if cands and self.p(0.85):
